@@ -73,6 +73,13 @@ func (c *Conn) Read(b []byte) (int, error) {
 // connection latency and throttling read throughput based on desired bandwidth
 // constraints.
 func (c *Conn) ReadFrom(r io.Reader) (int64, error) {
+	if c.Context != nil && c.Context.Shaping {
+		// A response that matches a shape must go through Write, which applies the
+		// shape's throttles, halts and close actions. bufio.Writer hands large
+		// bodies to ReadFrom, which would otherwise bypass them.
+		return io.Copy(struct{ io.Writer }{c}, r)
+	}
+
 	c.ronce.Do(c.sleepLatency)
 
 	var total int64
